@@ -78,6 +78,7 @@ def run(pid, tier):
     sys_all = [(n, t.encode("utf-8")) for n, t in docgen.systematic(seed(), docgen.SYS_POOL)]
     sys_pick = {n for n, _t in docgen.systematic(seed(), 700 if tier == "quick" else docgen.SYS_POOL)}
     docs += [(n, t.encode("utf-8")) for n, t in docgen.fix_families()]        # nested, ordinary-looking documents: all of them in both tiers
+    docs += [(n, t.encode("utf-8")) for n, t in docgen.repeat_families()]     # the same construct three times (rules with memory, unique reports)
     docs += sys_all          # quick: the whole systematic pool under "all rules"; the rotation of single rules on a subset
     rnd = random.Random(seed())
     jobs = []
@@ -113,7 +114,7 @@ def run(pid, tier):
                                 {"key": "output", "val": "first" if o["repeat_same"] else "different", "forbidden": False, "src": "scan 2"}])
     # ---- several files per invocation: family and shape documents in groups of 7 (long ones first), under "all rules"
     solo = {name: next((o for o in rr["runs"] if o["cfg"] == "all"), None) for (name, _d, _m), rr in zip(jobs, res)}
-    cand = [(name, data) for (name, data, _m) in jobs if name.startswith(("fixfam/", "shape/", "extra/")) and solo.get(name) and solo[name]["ok"]]
+    cand = [(name, data) for (name, data, _m) in jobs if name.startswith(("fixfam/", "shape/", "extra/", "repeat/")) and solo.get(name) and solo[name]["ok"]]
     cand.sort(key=lambda nd: (zlib.crc32(nd[0].encode()) % 97, -len(nd[1])))
     groups = [cand[i:i + 7] for i in range(0, len(cand), 7)]
     groups = [sorted(g, key=lambda nd: -len(nd[1])) for g in groups]
